@@ -1051,10 +1051,16 @@ class SimplifyPower(Rule):
                     return b.args[0] ^ a
             return e
         elif e.args[0].is_power():
-            # x ^ a ^ b => x ^ (a * b)
+            # x ^ a ^ b => x ^ (a * b), valid for integer b or non-negative x
+            if not (e.args[1].is_const() and isinstance(e.args[1].val, int)) and \
+                    not ctx.get_conds().is_not_negative(e.args[0].args[0]):
+                return e
             return e.args[0].args[0] ^ (e.args[0].args[1] * e.args[1])
         elif e.args[0].is_divides() and e.args[0].args[0] == Const(1) and e.args[0].args[1].is_power():
-            # (1 / x ^ a) ^ b => x ^ (-a * b)
+            # (1 / x ^ a) ^ b => x ^ (-a * b), valid for integer b or non-negative x
+            if not (e.args[1].is_const() and isinstance(e.args[1].val, int)) and \
+                    not ctx.get_conds().is_not_negative(e.args[0].args[1].args[0]):
+                return e
             return e.args[0].args[1].args[0] ^ (-e.args[0].args[1].args[1] * e.args[1])
         elif e.args[1].is_plus() and e.args[0].is_const() and e.args[1].args[1].is_const():
             # c1 ^ (a + c2) => c1 ^ c2 * c1 ^ a
